@@ -32,6 +32,10 @@ def jobs_stall(rng, thorough):
         spec = dict(gen.conn_log(rng))
         spec["stall"] = {"prob": 0.6, "us": [500, 5000, 40000, 150000]}
         spec["device"] = dict(spec["device"], latency=rng.choice([0.0, 0.0, 0.001, 0.02]))
+        if rng.random() < 0.4:
+            # thread switches between any two bytecodes of the log accessor while the other threads keep appending
+            spec["hot"] = "get_communication_log_items"
+            spec["hot_budget"] = rng.choice([10, 40])
         out.append((spec, rng.randrange(10 ** 9), rng.choice([3, 6, 12])))
     return out
 
